@@ -568,6 +568,29 @@ fn gen_float_cam<T: Fl>(rng: &mut Rng) -> ([T; 3], [T; 3], [T; 3]) {
             let dirv = r3(rng, 1.0);
             (e, [e[0] + dirv[0] * dd, e[1] + dirv[1] * dd, e[2] + dirv[2] * dd], r3(rng, s))
         }
+        10 | 11 => {
+            // unit inputs (added after seeded change C09_P): the eye at the origin or on small integers, the target
+            // one unit away, `up` a unit vector that is not perpendicular to the view direction - after rounding
+            // about half of these have a squared length of exactly 1, which is what an "already normalised, skip
+            // the normalisation" shortcut tests (and the cross product of two unit vectors is not unit)
+            let unit = |rng: &mut Rng| loop {
+                let v = r3(rng, 1.0);
+                let l = norm3(v);
+                if l > 0.1 {
+                    break [v[0] / l, v[1] / l, v[2] / l];
+                }
+            };
+            let e = if rng.bool() { [0.0; 3] } else { [rng.range_i64(-2, 2) as f64, rng.range_i64(-2, 2) as f64, rng.range_i64(-2, 2) as f64] };
+            let d = match rng.below(3) {
+                0 => *rng.pick(&[[0.0, 0.6, 0.8], [0.6, 0.0, -0.8], [-0.8, 0.6, 0.0], [1.0 / 3.0, 2.0 / 3.0, 2.0 / 3.0], [2.0 / 7.0, 3.0 / 7.0, -6.0 / 7.0]]),
+                _ => unit(rng),
+            };
+            let u = match rng.below(3) {
+                0 => *rng.pick(&[[0.0, 1.0, 0.0], [0.0, 0.0, 1.0], [1.0, 0.0, 0.0], [0.0, 0.8, 0.6]]),
+                _ => unit(rng),
+            };
+            (e, [e[0] + d[0], e[1] + d[1], e[2] + d[2]], u)
+        }
         8 | 9 => {
             // the whole scene in astronomical or microscopic units (added after seeded change C09_M):
             // eye-target distances from 1e-15 to 1e15 in f32 (1e-100 .. 1e100 in f64), whose squares
